@@ -12,7 +12,7 @@ RULE = ("rolling_sum: every series over {nodata} U {-2..2} up to length L (quick
 LEVEL_NOTE = ("Theorems are about the Lean model (over Z) of rolling_sum / mean_grp as repaired; float32 accumulation of the "
               "real kernel is exact on the enumerated small integers and is sampled, not proved, for large values.")
 
-ND_CHOICES = (-9999, 0, 7)
+ND_CHOICES = (-9999, 0, 7, 3)     # 3 and 7 are reachable as sums of valid cells
 
 
 def roll_expect(arr, w, nd):
@@ -100,7 +100,7 @@ def run(ctx: core.Ctx):
     # ---- mean_grp
     lines, refs = [], []
     Lg = 4 if ctx.quick else 5
-    for nd in (-9999, 0):
+    for nd in (-9999, 0, 1, 4):      # 1 and 4 are reachable as partial sums of the valid cells (-2+3, 1+3): the sentinel is data-independent
         alphabet = [nd] + [v for v in (-2, 0, 1, 3) if v != nd]
         for n in range(1, Lg + 1):
             labelings = [lab for k in range(1, n + 1) for lab in itertools.product(range(k), repeat=n) if set(lab) == set(range(k))]
